@@ -71,6 +71,9 @@ var dNets = []struct {
 	{netip.MustParsePrefix("192.168.1.0/25"), netip.MustParseAddr("192.168.1.2"), netip.MustParseAddr("192.168.1.1"), netip.MustParsePrefix("192.168.1.66/26")},
 	// a home LAN wider than /24: addresses of both halves share their last octet
 	{netip.MustParsePrefix("192.168.2.0/23"), netip.MustParseAddr("192.168.3.129"), netip.MustParseAddr("192.168.2.11"), netip.MustParsePrefix("192.168.3.129/25")},
+	// the handler's default configuration (dhcp4_spoofer.New): the netfilter subnet is the whole home LAN with our address as
+	// gateway - captured and other clients share one address range, and the real router's address lies inside the netfilter subnet
+	{netip.MustParsePrefix("192.168.4.0/24"), netip.MustParseAddr("192.168.4.129"), netip.MustParseAddr("192.168.4.11"), netip.MustParsePrefix("192.168.4.129/24")},
 }
 
 // client identities: two keyed by chaddr / a conventional client-id, two sharing one chaddr with different client-ids
